@@ -2,8 +2,8 @@ SPECIFICATION Spec
 CONSTANT MaxKey = 6
 CONSTANT MaxSize = 7
 VIEW View
-INVARIANT EveryEntryOnceInOrder
 INVARIANT PageLen
 INVARIANT FlagsExact
+INVARIANT EveryEntryOnceInOrder
 INVARIANT ErrorsOnlyForBadArgs
 CHECK_DEADLOCK FALSE
